@@ -6,7 +6,18 @@
      r=<ret> l=<len> t=<text> f=<flags> z=<size> ol=.. ot=.. of=.. oz=..                      *)
 let comma s = String.split_on_char ',' s
 let ios = int_of_string
-let zi s = z_of_int (ios s)
+(* decimal string -> Z without going through OCaml's 63-bit int (LONG_MIN / LONG_MAX occur) *)
+let z_of_string (s : string) : z =
+  let neg = String.length s > 0 && s.[0] = '-' in
+  let digits = if neg then String.sub s 1 (String.length s - 1) else s in
+  if String.length digits <= 17 then z_of_int (ios s)
+  else begin
+    let k = String.length digits - 9 in
+    let hi = z_of_int (ios (String.sub digits 0 k)) and lo = z_of_int (ios (String.sub digits k 9)) in
+    let v = Z.add (Z.mul hi (z_of_int 1000000000)) lo in
+    if neg then Z.opp v else v
+  end
+let zi s = z_of_string s
 
 let text_of_tok (s : string) : int list =
   match String.index_opt s '*' with
